@@ -213,6 +213,20 @@ def gen_traj_case(rng, idx):
             if b["centers"]:
                 centers_on.add(cv["name"])
             biases.append(b)
+    # multiple time stepping: one variable (and its biases) is computed every second or third step only; the trajectory keeps all
+    # its columns at every written step, a sleeping object showing the values it holds
+    mts = None
+    cand = [cv for cv in cvs if not cv["ext"] and not cv["flags"]["vel"] and not cv["flags"]["ft"]
+            and all(b["kind"] in ("harmonic", "walls", "linear") for b in biases if b["cv"] == cv["name"])]
+    if cand and rng.random() < 0.4:
+        cvm_ = rng.choice(cand)
+        nf = rng.choice([2, 3])
+        cvm_["text"] = re.sub(r"(colvar \{\n  name [^\n]*\n)", lambda m: m.group(1) + "  timeStepFactor %d\n" % nf, cvm_["text"], count=1)
+        assert "timeStepFactor" in cvm_["text"]
+        for b in biases:
+            if b["cv"] == cvm_["name"]:
+                b["text"] = b["text"].replace("  colvars %s\n" % cvm_["name"], "  colvars %s\n  timeStepFactor %d\n" % (cvm_["name"], nf), 1)
+        mts = (cvm_["name"], nf)
     freq = rng.choice([1, 2, 3, 5])
     start = rng.choice([0, 0, 7, 100, 1001])
     nseg = rng.randint(2, 4)
